@@ -95,6 +95,57 @@ def kernel_kinds(run):
         run.ob("kinds:numeric-kernels", "inconclusive", reason=str(ex)[-300:], engine="mir-smt")
         return
     c07.kinds_obligations(run, only_kernels=True)
+    cmp_obligation(run)
+
+
+def cmp_obligation(run):
+    """E3g on `PartialOrd for SteelVal`: every ordered pair of real-number kinds has an arm in partial_cmp"""
+    import os, re, json, shutil, subprocess, time
+    import ws, p_eqtab, p_kinds
+    oid = "cmp:every-pair-of-real-kinds-is-comparable"
+    M = getattr(run, "_mir", None)
+    t0 = time.time()
+    try:
+        kinds = p_kinds.variants(os.path.join(M["wsdir"], "crates", "steel-core", "src"))
+        r = p_eqtab.analyse_cmp(open(M["out"]).read(), kinds)
+    except Exception as ex:
+        run.ob(oid, "inconclusive", reason="extraction failed: %s" % str(ex)[-300:], engine="mir-smt")
+        return
+    common = dict(engine="mir-smt/z3", wall_s=round(time.time() - t0, 1), solver_s=round(r["dt"], 3), solver_checks=len(r["real"]) ** 2)
+    run.samples.append({"engine": "mir-smt", "query": "exists an ordered pair (a, b) of the kinds %s that PartialOrd::partial_cmp sends to its catch-all (None: not comparable)" % r["real"],
+                        "pairs with an arm of their own": r["handled"], "of the %d real pairs" % (len(r["real"]) ** 2): r["real_pairs_handled"]})
+    run.functions.append("rvals::<SteelVal as PartialOrd>::partial_cmp: decision tree of `match (self, other)` (MIR)")
+    if r["res"] == "error" or r["handled"] < 10:
+        run.ob(oid, "inconclusive", reason="solver error or vacuous table (%d handled pairs)" % r["handled"], **common)
+        return
+    if r["res"] == "unsat":
+        run.ob(oid, "pass", nonvacuous=True, note="all %d ordered pairs of real-number kinds have an arm in partial_cmp" % (len(r["real"]) ** 2), **common)
+        return
+    from props import c07
+    a, b = r["pair"]
+    call = "(< %s %s)" % (c07.KIND_EXPR.get(a) or "7", c07.KIND_EXPR.get(b) or "7")
+    obs = None
+    try:
+        shutil.copy(os.path.join(ws.VERIF, "harness", "arity_replay.rs"), os.path.join(M["wsdir"], "crates", "steel-core", "tests", "verif_arity_replay.rs"))
+        p = subprocess.run(["cargo", "test", "--offline", "-p", "steel-core", "--no-default-features", "--features", ws.FEATURES,
+                            "--test", "verif_arity_replay", "--target-dir", os.path.join(M["root"], "tn"), "--", "kinds_replay", "--exact", "--nocapture"],
+                           cwd=M["wsdir"], env=dict(M["env"], VERIF_KINDS_CALL=call), capture_output=True, text=True, timeout=1800)
+        out = p.stdout + p.stderr
+        m = re.search(r"OBSERVED: (.*)", out) or re.search(r"COMPLETED: .* returned (Err\(.*)", out)
+        obs = m.group(1) if m else None
+    except Exception as ex:
+        run.ob(oid, "inconclusive", reason="replay failed: %s" % str(ex)[-300:], **common)
+        return
+    what = "partial_cmp has no arm for (%s, %s): two real numbers that cannot be compared" % (a, b)
+    if not obs:
+        run.ob(oid, "inconclusive", reason="solver: %s; %s returned a value natively" % (what, call), **common)
+        return
+    d = os.path.join(ws.VERIF, "replays", run.pid)
+    os.makedirs(d, exist_ok=True)
+    path = os.path.join(d, "cmp_pair.json")
+    json.dump({"property": run.pid, "kind": "cmp", "what": what, "call": call, "observed": obs, "how": "./check %s --replay <this file>" % run.pid}, open(path, "w"), indent=1)
+    run.violation("cmp:%s-%s" % (a, b), "%s; natively: %s: %s" % (what, call, obs[:200]), path)
+    run.ob(oid, "fail", note=obs[:200], **common)
 
 
 def replay(pid, path):
